@@ -26,7 +26,7 @@ from WallGo.grid3Scales import Grid3Scales
 
 from symx import axioms, core, diff, npx
 from symx.core import AND, Cond, Sym, close, eq, gt, lt
-from symx.harness import HarnessDef
+from symx.harness import HarnessDef, bare
 
 EXPLANATION = __doc__
 BOUNDS = {"wallProfile": "1-2 fields, scalar z and z of shape (2,), everything symbolic",
@@ -41,7 +41,7 @@ TOL = 1e-9
 
 def h_profile(h, nf, zshape):
     h.patch(EOMM, float=npx.symfloat, np=npx.NP())
-    eom = EOMM.EOM.__new__(EOMM.EOM)
+    eom = bare(EOMM.EOM)
     lo = h.reals("vevLow", (nf,), -10, 10)
     hi = h.reals("vevHigh", (nf,), -10, 10)
     L = h.reals("width", (nf,), 0.05, 50)
@@ -88,7 +88,7 @@ def make_eom(h, M, nf, nparticles, includeOffEq):
     h.patch_numeric(PM)
     h.patch_numeric(GR)
     h.patch_numeric(G3)
-    eom = EOMM.EOM.__new__(EOMM.EOM)
+    eom = bare(EOMM.EOM)
     grid = Grid3Scales(M, 3, 8.0, 8.0, 2.0, 1.0, 0.5, 0.1)
     eom.grid = grid
     eom.nbrFields = nf
